@@ -4,6 +4,7 @@ import Pdlv.Enum
 import Pdlv.Resolve
 import Pdlv.Ref
 import Pdlv.Inherit
+import Pdlv.Seg
 
 namespace Pdlv.Driver
 open Lean (Json)
@@ -245,6 +246,13 @@ def handle (st : State) (req : Json) : Except String (State × Json) := do
           match Ref.encode f.endian b v with
           | some bs => pure (Json.mkObj [("r", "ok"), ("hex", Json.str bs.toHex)])
           | none => pure (Json.mkObj [("r", "none")])
+        | "segs" =>
+          let v ← valueOfJson (← c.getObjVal? "v")
+          match segBody cfg b v with
+          | .ok ss => pure (Json.mkObj [("r", "ok"), ("segs", Json.arr (ss.map fun s =>
+              Json.arr #[Json.str s.bytes.toHex, Json.bool s.swap]).toArray)])
+          | .err e => pure (Json.mkObj [("r", "err"), ("e", Json.str (encErrName e))])
+          | .panic h => pure (Json.mkObj [("r", "panic"), ("h", Json.str (hazardName h))])
         | "len" =>
           let v ← valueOfJson (← c.getObjVal? "v")
           pure (Json.mkObj [("r", "ok"), ("len", Json.num (lenBody b v))])
